@@ -1,1 +1,315 @@
+(* Lemmas about Model/Verify.v (property C05). *)
 From Oras Require Import Base.Prelude Generated.GC05 Model.Verify.
+From Coq Require Import Lia ZArith.
+
+Local Open Scope nat_scope.
+
+Ltac fin := repeat split; auto; try (simpl; lia); try discriminate.
+
+(* ------------------------------------------------------------------ scripted reader *)
+Lemma script_read_spec comb evs k bs e evs' :
+  script_read comb evs k = ((bs, e), evs') ->
+  stream evs = bs ++ stream evs' /\ length bs <= k /\ (e = Some EEof -> evs' = []).
+Proof.
+  destruct evs as [|[d| |] r]; simpl; intro E.
+  - inversion E; subst. fin.
+  - destruct (length d <=? k) eqn:L.
+    + apply Nat.leb_le in L. destruct comb.
+      * destruct r as [|[d'| |] r']; inversion E; subst; simpl; repeat split; auto; try discriminate.
+      * inversion E; subst. fin.
+    + inversion E; subst. simpl. rewrite app_assoc, firstn_skipn. repeat split; auto.
+      * apply firstn_le_length.
+      * discriminate.
+  - inversion E; subst. fin.
+  - inversion E; subst. fin.
+Qed.
+
+Definition lim_none (s : base) : bool := match b_lim s with None => true | Some _ => false end.
+
+Lemma clamp_le k n : (0 < n)%Z -> clamp k n <= k /\ (Z.of_nat (clamp k n) <= n)%Z.
+Proof. unfold clamp. intro Hn. destruct (Z.of_nat k >? n)%Z eqn:E; lia. Qed.
+
+Lemma base_read_spec comb s k bs e s' :
+  base_read comb s k = ((bs, e), s') ->
+  stream (b_evs s) = bs ++ stream (b_evs s') /\ length bs <= k /\
+  lim_none s' = lim_none s /\
+  (lim_none s = true -> e = Some EEof -> b_evs s' = []).
+Proof.
+  unfold base_read, lim_none. destruct s as [evs [n|]]; simpl.
+  - destruct (n <=? 0)%Z eqn:En.
+    + intro E; inversion E; subst; simpl. fin.
+    + destruct (script_read comb evs (clamp k n)) as [[bs0 e0] evs0] eqn:Es.
+      intro E; inversion E; subst; simpl. apply script_read_spec in Es as (A & B & C).
+      assert (0 < n)%Z by lia. pose proof (clamp_le k n H).
+      fin.
+  - destruct (script_read comb evs k) as [[bs0 e0] evs0] eqn:Es.
+    intro E; inversion E; subst; simpl. apply script_read_spec in Es as (A & B & C).
+    repeat split; auto.
+Qed.
+
+Section Proofs.
+  Variable H : str -> str -> str.
+  Variable comb : bool.
+
+  Notation vr_read := (vr_read comb).
+  Notation vr_verify := (vr_verify H comb).
+  Notation tee_read := (tee_read comb).
+
+  (* ---------------------------------------------------------------- ensureEOF *)
+  Lemma read_full_tee fuel : forall b h want acc acc' e b' h',
+    read_full tee_read fuel (b, h) want acc = ((acc', e), (b', h')) ->
+    exists d, acc' = acc ++ d /\ h' = h ++ d /\ stream (b_evs b) = d ++ stream (b_evs b') /\
+              lim_none b' = lim_none b /\
+              (e = Some EEof -> length acc' < want /\ (lim_none b = true -> b_evs b' = [])).
+  Proof.
+    induction fuel as [|f IH]; intros b h want acc acc' e b' h'; simpl.
+    - destruct (want <=? length acc) eqn:W; intro E; inversion E; subst;
+        exists []; rewrite !app_nil_r; repeat split; auto; discriminate.
+    - destruct (want <=? length acc) eqn:W.
+      { intro E; inversion E; subst. exists []; rewrite !app_nil_r; repeat split; auto; discriminate. }
+      unfold tee_read at 1. simpl.
+      destruct (base_read comb b (want - length acc)) as [[bs e0] b1] eqn:Eb.
+      apply base_read_spec in Eb as (A & B & C & D).
+      destruct e0 as [e0|].
+      + destruct (want <=? length (acc ++ bs)) eqn:W2.
+        { intro E; inversion E; subst. exists bs. repeat split; auto; discriminate. }
+        apply Nat.leb_gt in W2.
+        destruct ((0 <? length (acc ++ bs)) && is_eof e0) eqn:G; intro E; inversion E; subst;
+          exists bs; repeat split; auto; try discriminate.
+      + intro E. apply IH in E as (d & E1 & E2 & E3 & E4 & E5).
+        exists (bs ++ d). subst acc' h'. rewrite A, E3, !app_assoc.
+        split; [reflexivity|]. split; [reflexivity|]. split; [reflexivity|]. split; [congruence|].
+        intro Ee. destruct (E5 Ee) as [P Q]. split; [exact P|]. intro L. apply Q. congruence.
+  Qed.
+
+  Lemma ensure_eof_spec fuel b h ok b' h' :
+    ensure_eof comb fuel (b, h) = (ok, (b', h')) ->
+    lim_none b' = lim_none b /\
+    exists d, h' = h ++ d /\ stream (b_evs b) = d ++ stream (b_evs b') /\
+      (ok = true -> d = [] /\ (lim_none b = true -> b_evs b' = [])).
+  Proof.
+    unfold ensure_eof.
+    destruct (read_full tee_read fuel (b, h) 1 []) as [[acc e] [b1 h1]] eqn:E.
+    intro X; inversion X; subst. apply read_full_tee in E as (d & E1 & E2 & E3 & E4 & E5).
+    split; auto. exists d. repeat split; auto;
+      destruct e as [[]|]; try discriminate; destruct (E5 eq_refl) as [L1 L2]; auto.
+    simpl in E1. subst acc. destruct d; auto. simpl in L1; lia.
+  Qed.
+
+  (* ---------------------------------------------------------------- VerifyReader invariant *)
+  (* S0: the whole byte stream of the source; out: the bytes Read has returned so far *)
+  Definition same (a b : str) : Prop := a = b.
+
+  Definition live (S0 dg : str) (sz : Z) (v : vrd) (out : str) : Prop :=
+    v_verified v = false /\ (v_err v = None \/ v_err v = Some EEof) /\
+    v_hashed v = out /\ v_N v = (sz - Z.of_nat (length out))%Z /\ (0 <= v_N v)%Z /\
+    (v_err v = Some EEof -> (v_N v <= 0)%Z) /\
+    same S0 (out ++ stream (b_evs (v_base v))) /\ valid_digest dg = true.
+
+  Definition dead (v : vrd) : Prop :=
+    v_verified v = false /\ exists e, v_err v = Some e /\ e <> EEof.
+
+  Definition done (S0 dg : str) (sz : Z) (v : vrd) (out : str) : Prop :=
+    v_verified v = true /\ v_err v = Some EEof /\ Z.of_nat (length out) = sz /\
+    verified H dg out = true /\ same S0 (out ++ stream (b_evs (v_base v))) /\
+    (lim_none (v_base v) = true -> b_evs (v_base v) = []) /\ valid_digest dg = true.
+
+  Definition st3 S0 dg sz v out := live S0 dg sz v out \/ dead v \/ done S0 dg sz v out.
+
+  Lemma vr_read_st3 S0 dg sz v out k bs e v' :
+    st3 S0 dg sz v out -> vr_read v k = ((bs, e), v') ->
+    st3 S0 dg sz v' (out ++ bs) /\ lim_none (v_base v') = lim_none (v_base v) /\
+    (done S0 dg sz v out -> bs = [] /\ v' = v) /\ length bs <= k.
+  Proof.
+    intros [L|[D|F]] E; unfold Verify.vr_read in E.
+    - destruct L as (L1 & L2 & L3 & L4 & L5 & L6 & L7 & L8).
+      destruct L2 as [L2|L2]; rewrite L2 in E.
+      + destruct (v_N v <=? 0)%Z eqn:EN.
+        * inversion E; subst. rewrite app_nil_r. split; [|split; [reflexivity|split; [|simpl; lia]]].
+          -- left. unfold live, set_err; simpl. repeat split; auto. lia.
+          -- intros (F1 & _). congruence.
+        * destruct (base_read comb (v_base v) (clamp k (v_N v))) as [[bs0 e0] b1] eqn:Eb.
+          apply base_read_spec in Eb as (A & B & C & D).
+          assert (PN : (0 < v_N v)%Z) by lia. pose proof (clamp_le k _ PN) as [CL1 CL2].
+          destruct e0 as [e0|]; inversion E; subst; clear E; simpl.
+          -- split; [|split; [exact C|split; [|lia]]].
+             2:{ intros (F1 & _). congruence. }
+             destruct (is_eof e0 && (v_N v - Z.of_nat (length bs) >? 0)%Z) eqn:G.
+             ++ right; left. unfold dead, set_err; simpl. split; auto. exists EUnexpEof. split; auto. discriminate.
+             ++ destruct e0; simpl in G;
+                  try (right; left; unfold dead, set_err; simpl; split; auto; eexists; split; [reflexivity|discriminate]).
+                left. unfold live, set_err; simpl. repeat split; auto.
+                ** rewrite app_length, Nat2Z.inj_add. lia.
+                ** lia.
+                ** intros _. lia.
+                ** unfold same in *. rewrite <- app_assoc. rewrite <- A. exact L7.
+          -- split; [|split; [exact C|split; [|lia]]].
+             2:{ intros (F1 & _). congruence. }
+             left. unfold live; simpl. repeat split; auto.
+             ++ rewrite app_length, Nat2Z.inj_add. lia.
+             ++ lia.
+             ++ discriminate.
+             ++ unfold same in *. rewrite <- app_assoc. rewrite <- A. exact L7.
+      + inversion E; subst. rewrite app_nil_r. split; [|split; [reflexivity|split; [|simpl; lia]]].
+        * left. unfold live. repeat split; auto.
+        * intros _. auto.
+    - destruct D as (D1 & e0 & D2 & D3). rewrite D2 in E. inversion E; subst. rewrite app_nil_r.
+      split; [|split; [reflexivity|split; [|simpl; lia]]].
+      + right; left. split; auto. exists e0; auto.
+      + auto.
+    - destruct F as (F1 & F2 & F3). rewrite F2 in E. inversion E; subst. rewrite app_nil_r.
+      split; [|split; [reflexivity|split; [|simpl; lia]]].
+      + right; right. split; auto.
+      + auto.
+  Qed.
+
+  Lemma vr_verify_st3 S0 dg sz v out fuel r v' :
+    st3 S0 dg sz v out -> vr_verify fuel dg v = (r, v') ->
+    st3 S0 dg sz v' out /\ lim_none (v_base v') = lim_none (v_base v) /\
+    (r = None -> done S0 dg sz v' out).
+  Proof.
+    intros [L|[D|F]] E; unfold Verify.vr_verify in E.
+    - destruct L as (L1 & L2 & L3 & L4 & L5 & L6 & L7 & L8). rewrite L1 in E.
+      destruct (ensure_eof comb fuel (v_base v, v_hashed v)) as [ok [b1 h1]] eqn:Ee.
+      assert (P : (v_err v = None /\ r = Some EEarly /\ v' = v) \/
+                  ((v_N v <= 0)%Z /\
+                   (if negb ok then (Some ETrailing, set_err (mkVr b1 (v_N v) h1 (v_err v) false) ETrailing)
+                    else if verified H dg h1 then (None, mkVr b1 (v_N v) h1 (Some EEof) true)
+                         else (Some EMismatch, set_err (mkVr b1 (v_N v) h1 (v_err v) false) EMismatch)) = (r, v'))).
+      { destruct L2 as [L2|L2]; rewrite L2 in E |- *.
+        - destruct (v_N v >? 0)%Z eqn:G.
+          + left. inversion E; subst. auto.
+          + right. split; [lia|exact E].
+        - right. split; [auto|exact E]. }
+      clear E. destruct P as [(P1 & P3 & P4)|(PN & P)].
+      + subst. split; [|split; [reflexivity|discriminate]].
+        left. unfold live. repeat split; auto.
+      + 
+        apply ensure_eof_spec in Ee as (C & d & E1 & E2 & E3).
+        destruct ok; simpl in P.
+        * destruct (E3 eq_refl) as [Dn Dl]. subst d. rewrite app_nil_r in E1. subst h1.
+          simpl in E2. destruct (verified H dg (v_hashed v)) eqn:V; inversion P; subst; clear P; simpl.
+          -- assert (DN : done S0 dg sz (mkVr b1 (v_N v) (v_hashed v) (Some EEof) true) (v_hashed v)).
+             { unfold done; simpl. repeat split; auto.
+               - lia.
+               - unfold same in *. rewrite <- E2. exact L7.
+               - intro X. apply Dl. congruence. }
+             split; [right; right; exact DN|split; [exact C|intros _; exact DN]].
+          -- split; [|split; [exact C|discriminate]].
+             right; left. unfold dead, set_err; simpl. split; auto. eexists; split; [reflexivity|discriminate].
+        * inversion P; subst; clear P; simpl. split; [|split; [exact C|discriminate]].
+          right; left. unfold dead, set_err; simpl. split; auto. eexists; split; [reflexivity|discriminate].
+    - destruct D as (D1 & e0 & D2 & D3). rewrite D1, D2 in E.
+      destruct e0; try congruence; inversion E; subst;
+        (split; [right; left; split; auto; eexists; split; [eassumption|auto]|split; [reflexivity|discriminate]]).
+    - destruct F as (F1 & F2 & F3). rewrite F1 in E. inversion E; subst.
+      split; [right; right; split; auto|split; [reflexivity|intros _; split; auto]].
+  Qed.
+
+  Lemma done_facts S0 dg sz v out :
+    done S0 dg sz v out ->
+    Z.of_nat (length out) = sz /\ dg = digest_of H (alg_of dg) out /\ valid_digest dg = true /\
+    S0 = out ++ stream (b_evs (v_base v)) /\ (lim_none (v_base v) = true -> S0 = out).
+  Proof.
+    intros (F1 & F2 & F3 & F4 & F5 & F6 & F7). unfold same in F5. repeat split; auto.
+    - unfold verified in F4. apply str_eqb_spec in F4. exact F4.
+    - intro L. rewrite F5, (F6 L). simpl. apply app_nil_r.
+  Qed.
+
+  (* NewVerifyReader *)
+  Lemma new_vr_st3 fixed src dg sz :
+    (fixed = true \/ (0 <= sz)%Z) ->
+    st3 (stream (b_evs src)) dg sz (new_vr_gen fixed src dg sz) [].
+  Proof.
+    intro Hs. unfold new_vr_gen. destruct (valid_digest dg) eqn:V; simpl.
+    - destruct (fixed && (sz <? 0)%Z) eqn:G.
+      + right; left. split; auto. eexists; split; [reflexivity|discriminate].
+      + left. unfold live; simpl. repeat split; auto; try lia; try discriminate.
+        destruct Hs as [->|]; [|lia]. simpl in G. lia.
+    - right; left. split; auto. eexists; split; [reflexivity|discriminate].
+  Qed.
+
+  Lemma new_vr_lim fixed src dg sz : v_base (new_vr_gen fixed src dg sz) = src.
+  Proof. unfold new_vr_gen. destruct (negb (valid_digest dg)); [reflexivity|]. destruct (fixed && _); reflexivity. Qed.
+
+  (* ---------------------------------------------------------------- io.ReadFull over the VerifyReader *)
+  Lemma read_full_vr S0 dg sz fuel : forall v out want acc acc' e v',
+    st3 S0 dg sz v out ->
+    read_full vr_read fuel v want acc = ((acc', e), v') ->
+    exists d, acc' = acc ++ d /\ st3 S0 dg sz v' (out ++ d) /\ lim_none (v_base v') = lim_none (v_base v).
+  Proof.
+    induction fuel as [|f IH]; intros v out want acc acc' e v' S; simpl.
+    - destruct (want <=? length acc); intro E; inversion E; subst; exists []; rewrite !app_nil_r; auto.
+    - destruct (want <=? length acc).
+      { intro E; inversion E; subst; exists []; rewrite !app_nil_r; auto. }
+      destruct (vr_read v (want - length acc)) as [[bs e0] v1] eqn:Er.
+      destruct (vr_read_st3 _ _ _ _ _ _ _ _ _ S Er) as (S1 & C1 & _ & _).
+      destruct e0 as [e0|].
+      + destruct (want <=? length (acc ++ bs)).
+        { intro E; inversion E; subst. exists bs; auto. }
+        destruct ((0 <? length (acc ++ bs)) && is_eof e0); intro E; inversion E; subst; exists bs; auto.
+      + intro E. destruct (IH _ _ _ _ _ _ _ S1 E) as (d & E1 & E2 & E3).
+        exists (bs ++ d). subst acc'. rewrite !app_assoc.
+        split; [reflexivity|]. split; [exact E2|congruence].
+  Qed.
+
+  (* ---------------------------------------------------------------- ReadAll *)
+  Definition matches_desc (dg : str) (sz : Z) (bs : str) : Prop :=
+    Z.of_nat (length bs) = sz /\ dg = digest_of H (alg_of dg) bs /\ valid_digest dg = true.
+
+  Lemma read_all_sound fixed fuel src dg sz buf v :
+    read_all H comb fixed fuel src dg sz = ((None, buf), v) ->
+    matches_desc dg sz buf /\
+    (exists rest, stream (b_evs src) = buf ++ rest) /\
+    (b_lim src = None -> stream (b_evs src) = buf).
+  Proof.
+    unfold read_all. destruct (sz <? 0)%Z eqn:Z0; [discriminate|].
+    assert (S : st3 (stream (b_evs src)) dg sz (new_vr fixed src dg sz) []).
+    { apply new_vr_st3. right. lia. }
+    destruct (read_full vr_read fuel (new_vr fixed src dg sz) (Z.to_nat sz) []) as [[b0 e] v0] eqn:Er.
+    destruct (read_full_vr _ _ _ _ _ _ _ _ _ _ _ S Er) as (d & E1 & E2 & E3). simpl in E1, E2. subst b0.
+    destruct e as [e|]; [discriminate|].
+    destruct (vr_verify fuel dg v0) as [r v1] eqn:Ev.
+    intro X; inversion X; subst; clear X.
+    destruct (vr_verify_st3 _ _ _ _ _ _ _ _ E2 Ev) as (_ & C & Dn).
+    apply done_facts in Dn as (F1 & F2 & F3 & F4 & F5); auto.
+    split; [split; auto|]. split; [eexists; exact F4|].
+    intro L. apply F5. rewrite C, E3. unfold new_vr. rewrite new_vr_lim. unfold lim_none. rewrite L. reflexivity.
+  Qed.
+
+  (* ---------------------------------------------------------------- CopyBuffer *)
+  Lemma copy_loop_st3 S0 dg sz bufsz fuel : forall v out e out' v',
+    st3 S0 dg sz v out ->
+    copy_loop comb fuel v bufsz out = ((e, out'), v') ->
+    st3 S0 dg sz v' out' /\ lim_none (v_base v') = lim_none (v_base v).
+  Proof.
+    induction fuel as [|f IH]; intros v out e out' v' S; simpl.
+    - intro E; inversion E; subst; auto.
+    - destruct (vr_read v bufsz) as [[bs e0] v1] eqn:Er.
+      destruct (vr_read_st3 _ _ _ _ _ _ _ _ _ S Er) as (S1 & C1 & _ & _).
+      destruct e0 as [e0|].
+      + destruct e0; intro E; inversion E; subst; auto.
+      + intro E. destruct (IH _ _ _ _ _ S1 E) as (E2 & E3). split; auto. congruence.
+  Qed.
+
+  Lemma copy_buffer_sound fuel src bufsz dg sz out v :
+    copy_buffer H comb true fuel src bufsz dg sz = ((None, out), v) ->
+    matches_desc dg sz out /\
+    (exists rest, stream (b_evs src) = out ++ rest) /\
+    (b_lim src = None -> stream (b_evs src) = out).
+  Proof.
+    unfold copy_buffer.
+    assert (S : st3 (stream (b_evs src)) dg sz (new_vr true src dg sz) []).
+    { apply new_vr_st3. left; reflexivity. }
+    destruct (copy_loop comb fuel (new_vr true src dg sz) bufsz []) as [[e o] v0] eqn:Ec.
+    destruct (copy_loop_st3 _ _ _ _ _ _ _ _ _ _ S Ec) as (E2 & E3).
+    destruct e as [e|]; [discriminate|].
+    destruct (vr_verify fuel dg v0) as [r v1] eqn:Ev.
+    intro X; inversion X; subst; clear X.
+    destruct (vr_verify_st3 _ _ _ _ _ _ _ _ E2 Ev) as (_ & C & Dn).
+    apply done_facts in Dn as (F1 & F2 & F3 & F4 & F5); auto.
+    split; [split; auto|]. split; [eexists; exact F4|].
+    intro L. apply F5. rewrite C, E3. unfold new_vr. rewrite new_vr_lim. unfold lim_none. rewrite L. reflexivity.
+  Qed.
+
+End Proofs.
